@@ -749,3 +749,131 @@ Definition measure (g : graph) (pre : list (nat * option Z)) (targets : list nat
 Definition ereset (s : est_) : est_ :=
   {| dv := fun _ => None; trig := fun _ => false; act := fun _ => false; ran := fun _ => None; fin := None;
      taint := fun _ => false; nrel := fun _ => O |}.
+
+(* ===================================================================================== *)
+(* G. the publication wrapper Committer<T> (data.h / data.hpp): a committer is valid /      *)
+(*    moved-from / released; move construction and move assignment transfer the right to    *)
+(*    publish, release() / the destructor of the valid committer publish (GraphData::       *)
+(*    release).  What each special member does is regenerated from the source (the cm_ targets).        *)
+(* ===================================================================================== *)
+Record cmt := { cmd : option nat;        (* _data *)
+                cmv : bool }.            (* _valid *)
+Record dcell := { dacq : bool;           (* GraphData::_acquired *)
+                  dval : option Z;       (* current content (None = empty) *)
+                  dpub : nat;            (* ghost: number of publications (GraphData::release calls that sealed / would seal) *)
+                  dpubval : option Z;    (* ghost: content at the first publication *)
+                  dcan : nat;            (* ghost: cancel() calls of a valid committer *)
+                  dlate : bool }.        (* ghost: content changed after publication *)
+Record pst := { cms : list cmt; cells : nat -> dcell;
+                pmove : bool }.          (* ghost: a publication happened inside a move construction *)
+Definition cell0 : dcell := {| dacq := false; dval := None; dpub := 0; dpubval := None; dcan := 0; dlate := false |}.
+Definition pinit : pst := {| cms := []; cells := fun _ => cell0; pmove := false |}.
+
+Inductive pop :=
+| PNew (d : nat)                 (* data.emit<T>(): Committer(GraphData&) *)
+| PMove (src : nat)              (* Committer(Committer&&): the new committer gets the next index *)
+| PAssign (dst src : nat)        (* dst = std::move(src) *)
+| PWrite (c : nat) (v : Z)       (* *c = v  (get()) *)
+| PClear (c : nat)
+| PRelease (c : nat)
+| PDtor (c : nat)
+| PCancel (c : nat).
+
+Definition b2z (b : bool) : Z := if b then 1 else 0.
+Definition cupd (m : nat -> dcell) (d : nat) (x : dcell) : nat -> dcell := fun k => if (k =? d)%nat then x else m k.
+
+Definition publish (m : nat -> dcell) (d : nat) : nat -> dcell :=
+  let c := m d in
+  cupd m d {| dacq := dacq c; dval := dval c; dpub := S (dpub c);
+              dpubval := match dpub c with O => dval c | S _ => dpubval c end; dcan := dcan c; dlate := dlate c |}.
+Definition set_content (m : nat -> dcell) (d : nat) (x : option Z) : nat -> dcell :=
+  let c := m d in
+  cupd m d {| dacq := dacq c; dval := x; dpub := dpub c; dpubval := dpubval c; dcan := dcan c;
+              dlate := dlate c || (0 <? dpub c)%nat |}.
+
+(* Committer<T>::release() *)
+Definition c_release (c : cmt) (m : nat -> dcell) : cmt * (nat -> dcell) * bool :=
+  if cm_release_guard (b2z (cmv c)) then
+    let pub := (cm_release_publishes =? 1) && is_some (cmd c) in
+    ({| cmd := cmd c; cmv := if cm_release_clears_valid =? 1 then false else cmv c |},
+     match cmd c with Some d => if cm_release_publishes =? 1 then publish m d else m | None => m end, pub)
+  else (c, m, false).
+
+Definition pstep (s : pst) (o : pop) : option pst :=
+  match o with
+  | PNew d =>
+    let c := cells s d in
+    Some {| cms := cms s ++ [{| cmd := Some d; cmv := negb (dacq c) |}];
+            cells := cupd (cells s) d {| dacq := true; dval := dval c; dpub := dpub c; dpubval := dpubval c; dcan := dcan c; dlate := dlate c |};
+            pmove := pmove s |}
+  | PMove i =>
+    match nth_error (cms s) i with
+    | Some c =>
+      let src := {| cmd := if cm_move_clears_data =? 1 then None else cmd c;
+                    cmv := if cm_move_clears_valid =? 1 then false else cmv c |} in
+      let '(src', m', pub) := if cm_move_calls_release =? 1 then c_release src (cells s) else (src, cells s, false) in
+      Some {| cms := lset i src' (cms s) ++ [c]; cells := m'; pmove := pmove s || pub |}
+    | None => None
+    end
+  | PAssign j i =>
+    if (j =? i)%nat then None else
+    match nth_error (cms s) j, nth_error (cms s) i with
+    | Some dst, Some src =>
+      let dst' := {| cmd := if cm_assign_swaps_data =? 1 then cmd src else cmd dst;
+                     cmv := if cm_assign_swaps_valid =? 1 then cmv src else cmv dst |} in
+      let src0 := {| cmd := if cm_assign_swaps_data =? 1 then cmd dst else cmd src;
+                     cmv := if cm_assign_swaps_valid =? 1 then cmv dst else cmv src |} in
+      let '(src', m', _) := if cm_assign_releases_other =? 1 then c_release src0 (cells s) else (src0, cells s, false) in
+      Some {| cms := lset i src' (lset j dst' (cms s)); cells := m'; pmove := pmove s |}
+    | _, _ => None
+    end
+  | PWrite i v =>
+    match nth_error (cms s) i with
+    | Some c => Some {| cms := cms s;
+                        cells := if cm_get_guard (b2z (cmv c)) then match cmd c with Some d => set_content (cells s) d (Some v) | None => cells s end
+                                 else cells s;
+                        pmove := pmove s |}
+    | None => None
+    end
+  | PClear i =>
+    match nth_error (cms s) i with
+    | Some c => Some {| cms := cms s;
+                        cells := if cmv c then match cmd c with Some d => set_content (cells s) d None | None => cells s end else cells s;
+                        pmove := pmove s |}
+    | None => None
+    end
+  | PRelease i =>
+    match nth_error (cms s) i with
+    | Some c => let '(c', m', _) := c_release c (cells s) in Some {| cms := lset i c' (cms s); cells := m'; pmove := pmove s |}
+    | None => None
+    end
+  | PDtor i =>
+    match nth_error (cms s) i with
+    | Some c => let '(c', m', _) := if cm_dtor_releases =? 1 then c_release c (cells s) else (c, cells s, false) in
+                Some {| cms := lset i c' (cms s); cells := m'; pmove := pmove s |}
+    | None => None
+    end
+  | PCancel i =>
+    match nth_error (cms s) i with
+    | Some c =>
+      if cmv c then
+        match cmd c with
+        | Some d =>
+          let m1 := if cm_cancel_publishes =? 1 then publish (cells s) d else cells s in
+          let x := m1 d in
+          Some {| cms := lset i {| cmd := None; cmv := if cm_cancel_clears_valid =? 1 then false else true |} (cms s);
+                  cells := cupd m1 d {| dacq := dacq x; dval := dval x; dpub := dpub x; dpubval := dpubval x; dcan := S (dcan x); dlate := dlate x |};
+                  pmove := pmove s |}
+        | None => Some s
+        end
+      else Some s
+    | None => None
+    end
+  end.
+
+Fixpoint prun (s : pst) (l : list pop) : pst :=
+  match l with [] => s | o :: r => prun (match pstep s o with Some s' => s' | None => s end) r end.
+
+Definition hv (c : cmt) (d : nat) : nat :=
+  if cmv c && match cmd c with Some x => (x =? d)%nat | None => false end then 1%nat else 0%nat.
+Fixpoint nvalid (d : nat) (l : list cmt) : nat := match l with [] => O | c :: r => (hv c d + nvalid d r)%nat end.
